@@ -171,6 +171,10 @@ class Repo:
         from .records import desugar_records
 
         self.records = desugar_records([m.tree for m in self.modules.values()])
+        # one spelling per construct (see idioms.py)
+        from .idioms import normalise_idioms
+
+        self.idioms = normalise_idioms([m.tree for m in self.modules.values()])
 
     def digest(self, modnames: Iterable[str] | None = None) -> str:
         h = hashlib.sha256()
